@@ -48,32 +48,37 @@ def _residual_kind(t):
     return None
 
 
-def _known_at_end(cj, preds, p, x, depth=MAX_BACK):
-    """(family, variant index) of local x at the end of block p, looking back through single-predecessor blocks"""
-    seen = 0
-    cur = p
-    while cur is not None and seen <= depth:
-        seen += 1
-        b = cj["blocks"][cur]
-        t = b["term"]
-        if t.get("k") == "call" and _plain_local(t.get("dest")) and t["dest"]["l"] == x:
-            if t.get("callee_name") == "from_residual":
-                return _residual_kind(t)
-            return None
-        for s in reversed(b["stmts"]):
-            lhs = s.get("lhs")
-            if s.get("k") == "assign" and isinstance(lhs, dict) and lhs.get("l") == x:
-                if lhs.get("p"):
-                    return None
-                rv = s.get("rv", {})
-                if rv.get("k") == "agg" and rv.get("ak") == "adt":
-                    return _SUCCESS.get((rv.get("adt"), rv.get("variant")))
+def _known_at_end(cj, preds, p, x, depth=MAX_BACK + 2):
+    """(family, variant index) of local x at the end of block p; where several paths meet before p they must agree"""
+    if depth < 0:
+        return None
+    b = cj["blocks"][p]
+    t = b["term"]
+    if t.get("k") == "call" and _plain_local(t.get("dest")) and t["dest"]["l"] == x:
+        if t.get("callee_name") == "from_residual":
+            return _residual_kind(t)
+        return None
+    for s in reversed(b["stmts"]):
+        lhs = s.get("lhs")
+        if s.get("k") == "assign" and isinstance(lhs, dict) and lhs.get("l") == x:
+            if lhs.get("p"):
                 return None
-        ps = preds.get(cur, [])
-        if len(ps) != 1:
+            rv = s.get("rv", {})
+            if rv.get("k") == "agg" and rv.get("ak") == "adt":
+                return _SUCCESS.get((rv.get("adt"), rv.get("variant")))
             return None
-        cur = ps[0]
-    return None
+    ps = preds.get(p, [])
+    if not ps or len(ps) > 6:
+        return None
+    vals = set()
+    for q in ps:
+        if q == p:
+            return None
+        v = _known_at_end(cj, preds, q, x, depth - 1)
+        if v is None:
+            return None
+        vals.add(v)
+    return vals.pop() if len(vals) == 1 else None
 
 
 def _walk_chain(cj, j, known0):
